@@ -3,6 +3,8 @@ import Gql.Proofs.Complete
 import Gql.Proofs.AnnounceRun
 import Gql.Proofs.Fuel
 import Gql.Proofs.RootNodes
+import Gql.Proofs.StreamOrder
+import Gql.Proofs.PayloadNest
 import Gql.Proofs.StreamQueue
 import Gql.Async.EnvOk
 /-!
@@ -239,6 +241,48 @@ theorem roots_antichain (σ : Static) (π : PubStatic) (fuel : Nat) (work : Opti
   intro r hr a har hanc
   exact ha r hr a hanc (hn a har)
 
+/-- **P5 at the payload level.**  Groups labelled by their own number (`Labels π`).  At every
+payload boundary of every well-formed history: if `a` and `b` are `pending` entries announced
+so far and `a` has not been completed yet (its id is in no `completed` list so far), then the
+fragment of `a` does not enclose the fragment of `b` — a nested fragment's id is never in a
+`pending` list while the id of an announced enclosing fragment is still pending.  (The
+publisher's id table ties the entries to `_root_groups`: an uncompleted entry's id is still in
+the table under its group, the table holds only roots, roots have nodes, and every group ever
+announced keeps all its ancestors out of the graph.) -/
+theorem nested_never_pending_with_enclosing (σ : Static) (π : PubStatic) (L : Labels π) (fuel : Nat)
+    (work : Option Work) (h : List Tick) (hok : envOk σ fuel work h = true) (k : Nat)
+    (hk : k < (payloads σ π fuel work h).length) :
+    ∀ a ∈ annEntries ((payloads σ π fuel work h).take (k + 1)),
+    ∀ b ∈ annEntries ((payloads σ π fuel work h).take (k + 1)),
+    ∀ ga gb, a.label = some ga → b.label = some gb →
+      a.id ∉ completedIds ((payloads σ π fuel work h).take (k + 1)) → ¬ Anc σ ga gb :=
+  payload_nesting σ π L fuel work h hok k hk
+
+/-- **P6 at the model level (stream items arrive in list order without gaps or repeats).**  For
+every well-formed environment history:
+* the stream entries of the payload stream are, entry for entry and item for item, the batches
+  the scheduler handled (`streamValues` events), in handling order — nothing is dropped,
+  duplicated or reordered between `_stream_items` and the payloads;
+* per stream, the source indices of the delivered items are their positions: `0, 1, 2, …`
+  (E3: the batches come from `batches()` in queue order — `stream_queue_in_order` — one at a
+  time, the pump waits for `handled`). -/
+theorem stream_items_in_order (σ : Static) (π : PubStatic) (fuel : Nat) (work : Option Work)
+    (h : List Tick) (hok : envOk σ fuel work h = true) :
+    payloadStreams (payloads σ π fuel work h) = svAll (wqRun σ fuel (wqStart σ fuel work) h).2.flatten ∧
+    ∀ s, InOrder (svIdx s (wqRun σ fuel (wqStart σ fuel work) h).2.flatten) := by
+  constructor
+  · rw [(payloads_eq σ π fuel work h).1]
+    have := publish_streams π (wqRun σ fuel (wqStart σ fuel work) h).2
+      (initialPayload π (init σ work).2.1 (init σ work).2.2).1
+    simp only [payloadStreams, List.flatMap_cons] at this ⊢
+    rw [this]
+    simp [initialPayload, incrStreams]
+  · obtain ⟨e, he⟩ := (orderInv_run σ).envOk fuel work h
+      (by intro s
+          refine ⟨by intro j i hj; simp [svIdx] at hj, ?_⟩
+          cases work <;> simp [svIdx, EnvSt.intro, alookup]) hok
+    exact fun s => (he s).1
+
 /-! ## Fuel bounds
 
 The model's recursions through the graph are by fuel.  The fuel the model passes is never
@@ -385,6 +429,8 @@ def exHistory : List Tick :=
   [ [.taskSuccess 0 (exResult 0 (some { groups := [1], tasks := [1] }))],
     [.taskSuccess 1 (exResult 1 (some { groups := [2], tasks := [2] }))],
     [.taskSuccess 2 (exResult 2 none)] ]
+
+example : Labels exPub := ⟨fun _ => rfl, fun _ => rfl⟩
 
 /-- The example history is a well-formed environment … -/
 example : envOk exStatic 8 exWork exHistory = true := by decide
